@@ -31,11 +31,12 @@ type OCSPRevocationChecker struct {
 }
 
 func (c *OCSPRevocationChecker) IsRevoked(clientCertificate *x509.Certificate, verifiedChains [][]*x509.Certificate) (*core.RevocationStatus, error) {
-	subjectRDNSequence, err := asn1parser.ParseSubjectRDNSequence(clientCertificate)
+	//a certificate is identified by its issuer and serial number (subjects are not unique across issuers)
+	issuerRDNSequence, err := asn1parser.ParseIssuerRDNSequence(clientCertificate)
 	if err != nil {
 		return nil, err
 	}
-	cacheKey := subjectRDNSequence.String() + "_" + clientCertificate.SerialNumber.String()
+	cacheKey := issuerRDNSequence.String() + "_" + clientCertificate.SerialNumber.String()
 	cache, err := c.tryGetResponseFromCache(cacheKey)
 	if err == nil {
 		return cache, nil
